@@ -22,7 +22,7 @@ ASSUMPTIONS = ['well-formed models (DESIGN 4a)', 'reference semantics vp/ref.py'
 CASE_TIMEOUT = 180
 
 FOCUS = ['vec_partial_input_default', 'vec_single_target_multi_source']
-ET_FOCUS = ['mixed_template_overrides']
+ET_FOCUS = ['mixed_template_overrides', 'edge_second_input_varies']
 
 
 def plan(tier, seed):
@@ -206,7 +206,8 @@ def make_spec(case, opened):
             spec = add_edges(spec, rnd, uniform)
             if et_mode:
                 spec = gen.add_edge_templates(spec, rnd, frac=rnd.choice([0.3, 0.6, 1.0]),
-                                              mixed_overrides=want == 'mixed_template_overrides')
+                                              mixed_overrides=want == 'mixed_template_overrides',
+                                              bind_second=want != 'edge_second_input_varies')
             f, r = gen.features(spec)
             r2 = (set(r) - {'vec_partial_input_default'}) | vec_risks(spec)
             if want and want not in r2:
